@@ -110,7 +110,7 @@ META = {
         "group tree is a chain of depth n-1) stacked along y, mirrored along x, and as two-glyph vertical columns with "
         "detect_vertical, each analysed directly with boxes_flow {0.5,-1,1,None} under the full oracle (evaluated without "
         "recursion) and fed through a generated one-page PDF to extract_text_to_fp for text, xml and html (xml: n textbox "
-        "elements 0..n-1 and a layout tree holding each id once), recursion limit left at the default (n=1200 only with boxes_flow 0.5 directly and through the xml route); "
+        "elements 0..n-1 and a layout tree holding each id once), recursion limit left at the default (n=1200, and the x-mirrored arrangement at every n <= 600, only with boxes_flow 0.5 directly and through the xml route); "
         "plus the family huge (both tiers): page boxes, and boxes of analysed figures, that are huge (10^6, 10^11, 2^40; also with a "
         "negative origin) in exactly one dimension or in both, holding 2 or 3 two-glyph boxes far apart along the huge "
         "dimension(s), boxes_flow {0.5,None,-1,1}, full oracle, termination judged by a counted budget of 2*10^7 Plane grid "
@@ -899,8 +899,15 @@ def shards(tier):
     out += [("pre", i, j) for i in range(len(POOL)) for j in range(len(POOL))]
     out += [("vcols", i) for i in range(len(VC_X0))]
     # the largest n (quadratic cost) only with boxes_flow 0.5 directly and through the xml route
-    out += [("deep-chain", "direct", arr, n, bf) for arr in DC_ARR for n in DC_N for bf in DC_FLOWS if n < DC_N[-1] or bf == 0.5]
-    out += [("deep-chain", "pdf", arr, n, o) for arr in DC_ARR for n in DC_N for o in DC_OUT if n < DC_N[-1] or o == "xml"]
+    # and the x-mirrored arrangement "row" (same tree shape as "stack") only with boxes_flow 0.5 / xml and n <= 600
+    def keep(arr, n, x):
+        main = x in (0.5, "xml")
+        if arr == "row":
+            return main and n < DC_N[-1]
+        return n < DC_N[-1] or main
+
+    out += [("deep-chain", "direct", arr, n, bf) for arr in DC_ARR for n in DC_N for bf in DC_FLOWS if keep(arr, n, bf)]
+    out += [("deep-chain", "pdf", arr, n, o) for arr in DC_ARR for n in DC_N for o in DC_OUT if keep(arr, n, o)]
     out += [("huge", i) for i in range(len(HUGE_PAGES))]
     out += [("device-forms", i) for i in range(len(DF_BBOX))]
     return out
